@@ -286,7 +286,13 @@ def run_job_inner(job):
             for e in st.edits:
                 if not isinstance(e["start"], int) or not isinstance(e["stop"], int):
                     continue
-                recs.append({"owner": owner, "rule": st.rule, "params": pcache[st.rule], "action": e.get("action_data"), "old": bw[e["start"] : e["stop"]], "new": e["new"]})
+                old_toks = bw[e["start"] : e["stop"]]
+                # beginning_of_file pseudo tokens belong to a region but not to the file (calculate_end_index
+                # skips them): whitespace_001's first region is [BOF, whitespace, CR]
+                bof = [t for t in e["new"] if ci.kind.get(t[1]) == "bof"]
+                if bof and not any(ci.kind.get(t[1]) == "bof" for t in old_toks):
+                    old_toks = bof + old_toks
+                recs.append({"owner": owner, "rule": st.rule, "params": pcache[st.rule], "action": e.get("action_data"), "indents": e.get("old_indents"), "old": old_toks, "new": e["new"]})
         if recs:
             nm, unm, mism = bfix.replay_records(recs, _W["ncls"])
             out["bfix_replayed"] = nm
